@@ -27,6 +27,8 @@ def run(repo, rep):
     rep.clause("C04-a", "MemoryAccessSet.conflicts reports RAW, WAR and WAW (and only those); RangeSet keeps the sorted order its sweep relies on")
     rep.clause("C04-b", "every address-bearing field of the API operation classes enters the access set with the right direction; LUT/SHRAM ranges present")
     rep.clause("C04-l", "the kernel seen by the block dependency calculation is the kernel that is programmed: to_kernel forwards width, height, strides and dilations")
+    rep.clause("C04-m", "the address ranges of an area cover every row: get_h_ranges yields one range per row y0..y1 (interpreted with a recording stub for get_address_range)")
+    rule_h_ranges(repo, rep)
     rule_kernel_forwarding(repo, rep)
     rep.clause("C04-k", "block dependency: the operator kinds that consume the whole IFM depth agree between the stripe transform and get_ifm_ofm_block_depth (Conv2D and REDUCE_SUM)")
     rule_depth_consuming_kinds(repo, rep)
@@ -909,3 +911,32 @@ def rule_kernel_forwarding(repo, rep):
     ok = got[: len(want)] == want or all(f"{p}=kernel.{alias.get(p, p)}" in got or (i < len(calls[0].args) and got[i] == want[i]) for i, p in enumerate(kparams[: len(want)]))
     rep.check(ok and len(want) >= 6, "C04-l", "ethosu/vela/register_command_stream_util.py:to_kernel", f"every kernel member is forwarded in order: Kernel({', '.join(want)})",
               f"Kernel({', '.join(got)}): a member is dropped or misplaced; without the dilation calc_blockdep under-estimates the IFM rows of the first jobs (BLOCKDEP 2 for 1, 3 for 2 on dilated convolutions)")
+
+
+def rule_h_ranges(repo, rep):
+    """(m) `calc_blockdep` / the wait logic compare areas row by row: get_h_ranges(fm, strides, y0, x0, c0, y1, x1, c1) must return the range
+    of every row y0..y1. The function is interpreted with `get_address_range` replaced by a stub that returns its row arguments."""
+    from ..absint import AList, Interp
+
+    ru = repo.mod("register_command_stream_util")
+    if ru.func("get_h_ranges") is None:
+        raise AnalysisError("register_command_stream_util.get_h_ranges not found")
+
+    def stub(interp, args, kwargs, node):
+        return ("row", args[2], args[5]) if len(args) >= 6 else None
+
+    it = Interp(repo, ru, externs={"get_address_range": stub})
+    wrong = None
+    pts = 0
+    for y0, y1 in ((0, 0), (0, 1), (0, 2), (3, 9), (4, 11), (5, 5), (7, 10)):
+        ps = [p_ for p_ in it.run("get_h_ranges", lambda y0=y0, y1=y1: (["fm", "strides", y0, 0, 0, y1, 7, 15], {})) if p_.kind == "return"]
+        if len(ps) != 1 or not isinstance(ps[0].value, (AList, list)):
+            raise AnalysisError(f"get_h_ranges({y0}..{y1}) not evaluable: {[(p_.kind, p_.value) for p_ in ps][:2]}")
+        items = ps[0].value.items if isinstance(ps[0].value, AList) else ps[0].value
+        rows = [x[1] for x in items if isinstance(x, tuple) and x and x[0] == "row" and x[1] == x[2]]
+        pts += 1
+        if (len(rows) != len(items) or rows != list(range(y0, y1 + 1))) and wrong is None:
+            wrong = (y0, y1, rows)
+    rep.check(wrong is None, "C04-m", "ethosu/vela/register_command_stream_util.py:get_h_ranges", f"one single-row range for each row y0..y1 ({pts} areas)",
+              (f"rows {wrong[0]}..{wrong[1]} give ranges for rows {wrong[2]}: an OFM block of the previous kernel that lies strictly inside a taller IFM area is not seen by `intersects`: BLOCKDEP too "
+               "large, the consumer's first job reads rows that are not written yet") if wrong else "")
